@@ -196,7 +196,7 @@ impl Sem for ExpectedUtility {
         O::EU(1.0, 0.0)
     }
     fn alphabet() -> Vec<(O, O)> {
-        vec![(O::EU(0.5, 1.0), O::EU(0.5, -1.0)), (O::EU(1.0, 0.0), O::EU(0.0, 0.0)), (O::EU(0.25, 2.0), O::EU(0.75, -2.0))]
+        vec![(O::EU(0.5, 1.0), O::EU(0.5, -1.0)), (O::EU(1.0, 0.0), O::EU(0.0, 0.0)), (O::EU(0.25, 2.0), O::EU(0.75, -2.0)), (O::EU(0.0, -2.0), O::EU(1.0, 2.0))]
     }
 }
 
@@ -220,7 +220,7 @@ impl Sem for Complex {
         O::Cx(1.0, 0.0)
     }
     fn alphabet() -> Vec<(O, O)> {
-        vec![(O::Cx(0.5, 0.5), O::Cx(0.5, -0.5)), (O::Cx(1.0, 0.0), O::Cx(0.0, 0.0)), (O::Cx(0.25, 1.0), O::Cx(0.75, -1.0))]
+        vec![(O::Cx(0.5, 0.5), O::Cx(0.5, -0.5)), (O::Cx(1.0, 0.0), O::Cx(0.0, 0.0)), (O::Cx(0.25, 1.0), O::Cx(0.75, -1.0)), (O::Cx(0.0, 2.0), O::Cx(1.0, -2.0))]
     }
 }
 
